@@ -1,5 +1,5 @@
 """Property -> rules table.  Rules are functions (ctx, repo)."""
-from .rules import ndim, iface, wrappers, rng, mech, errmodels, popmodels, switch, copies, cursors, reduced, layout, noise, filters, caches, problems, dosing, sbml, predictive, inference, plots, loglik, purity, lint
+from .rules import ndim, iface, wrappers, rng, mech, errmodels, popmodels, switch, copies, cursors, reduced, layout, noise, filters, caches, problems, dosing, sbml, predictive, inference, plots, loglik, purity, lint, forward
 
 PROPS = {}
 
@@ -78,7 +78,7 @@ prop('C01',
                  'is the sum of its pointwise values.')
 
 prop('C02',
-     [iface.r02_1, iface.r02_7, iface.r02_6, wrappers.r02_2, CUR_HIER,
+     [iface.r02_1, iface.r02_7, iface.r02_6, wrappers.r02_2, forward.r02_8, CUR_HIER,
       layout.r02_3, layout.r02_4, layout.r07_1, popmodels.r05_2,
       layout.r05_3],
      undecided=['numerical equality of the score with the hand-assembled sum',
@@ -191,7 +191,7 @@ prop('C07',
 
 prop('C08',
      [reduced.r08_1, reduced.r08_2, reduced.r08_3, reduced.r08_4,
-      caches.r08_5, switch.r08_7, wrappers.r02_2, iface.r02_7,
+      caches.r08_5, switch.r08_7, wrappers.r02_2, forward.r02_8, iface.r02_7,
       copies.r19_3],
      undecided=['value equality of evaluations', 'nan in released slots'],
      assumptions=COMMON_ASSUME,
@@ -311,7 +311,7 @@ prop('C13',
 
 prop('C17',
      [layout.r05_3, layout.r02_4, layout.r13_1, layout.r07_1,
-      wrappers.r02_2, reduced.r08_4, caches.r08_5, switch.r08_7, CUR_HIER,
+      wrappers.r02_2, forward.r02_8, reduced.r08_4, caches.r08_5, switch.r08_7, CUR_HIER,
       CUR_LL],
      undecided=['uniqueness of run-time names (string contents)',
                 'bounded enumeration of deeper compositions'],
